@@ -8,6 +8,7 @@ import Driver.C17
 import Driver.C20
 import Driver.C11
 import Driver.C06
+import Driver.C19
 open Driver
 
 def dispatch (line : String) : String :=
@@ -17,6 +18,10 @@ def dispatch (line : String) : String :=
   | "exit" :: args => C05.exit args
   | "checks" :: args => EnableOp.checks args
   | "merge" :: args => EnableOp.merge args
+  | "relaxedlines" :: args => C19.relaxedlines args
+  | "strictlines" :: args => C19.strictlines args
+  | "relaxedwalk" :: args => C19.relaxedwalk args
+  | "strictwalk" :: args => C19.strictwalk args
   | "npr" :: args => C06.npr args
   | "readrange" :: args => C06.readrange args
   | "pipeline" :: args => C11.pipelineOp args
